@@ -19,7 +19,7 @@ FileSpace == {Encode([k \in 1..Len(shs) |-> MkItem(shs[k], k)], cr) :
 
 \* shapes for random wide cases
 SimCSG == {<<81, 1, 1>>, <<97, 1, 1>>, <<112, 1, 2>>, <<9, 1, 4>>, <<81, 2, 1>>, <<49, 3, 1>>, <<112, 2, 1>>, <<59, 1, 2>>,
-           <<59, 2, 1>>, <<200, 1, 1>>, <<118, 1, 4>>, <<1, 1, 2>>}
+           <<59, 2, 1>>, <<200, 1, 1>>, <<118, 1, 4>>, <<1, 1, 2>>, <<128, 1, 1>>, <<143, 1, 1>>}
 SimShapes == {sh \in [k : {"D"}, start : {0, 1, 255, 256, 65535, 1048576}, len : {0, 1, 2, 3, 4, 8, 12}, csg : SimCSG,
                       short : BOOLEAN] :
                 /\ sh.len % sh.csg[3] = 0
@@ -27,7 +27,7 @@ SimShapes == {sh \in [k : {"D"}, start : {0, 1, 255, 256, 65535, 1048576}, len :
              \cup [k : {"E"}, addr : {0, 4660, 16777215}]
 
 \* named constants for the cfg files
-CSG_Small == {<<81, 1, 1>>, <<112, 1, 2>>, <<81, 2, 1>>, <<200, 1, 1>>}
+CSG_Small == {<<81, 1, 1>>, <<112, 1, 2>>, <<81, 2, 1>>, <<129, 1, 1>>}     \* 129 = $81: CPU id >= $80, never short
 CSG_Two   == {<<81, 1, 1>>, <<112, 1, 2>>}
 CSG_Three == {<<81, 1, 1>>, <<112, 1, 2>>, <<200, 2, 1>>}
 Cr_One    == {<<65, 83>>}
